@@ -169,6 +169,11 @@ def plan(tier, seed):
             p["hookcl"] = True
         return p
 
+    def with_names(p, cfgs, prob):
+        """some configurations: --name selects a random subset of the scenarios (plain ones and outline rows) by name"""
+        sids = [e["id"] for e in G.flatten(p)["elems"] if e["kind"] == "scenario"]
+        return [dict(c, names=[i for i in sids if rnd.random() < 0.5]) if rnd.random() < prob else c for c in cfgs]
+
     def with_hdronly(p, prob):
         """some programs: every outline has an additional Examples table without rows"""
         if rnd.random() < prob:
@@ -259,7 +264,7 @@ def plan(tier, seed):
             out.append((with_o2(p), [G.cfg(), rcfg()], rfaults(p, 2)))
         for p in G.family_tree(rnd, 260):
             p = with_hdronly(with_hookcl(with_skips(with_o2(p), 0.2), 0.3), 0.2)
-            out.append((p, [dict(c, retry=False) for c in (rcfg(), rcfg())] if p.get("skips") else [rcfg(), rcfg()], rfaults(p, 2)))
+            out.append((p, with_names(p, [dict(c, retry=False) for c in (rcfg(), rcfg())] if p.get("skips") else [rcfg(), rcfg()], 0.2), rfaults(p, 2)))
         for p in G.family_big(rnd, 40):
             out.append((with_o2(p), [rcfg()], rfaults(p, 2)))
         out.extend(cleanup_only_programs())
@@ -290,7 +295,7 @@ def plan(tier, seed):
             p = with_hdronly(with_hookcl(with_skips(with_o2(p), 0.2), 0.3), 0.2)
             nh = G.count_hooks_upper(G.flatten(p))
             cf = [rcfg(), rcfg()]
-            out.append((p, [dict(c, retry=False) for c in cf] if p.get("skips") else cf, [[0, 0]] + spread(nh, 6) + rfaults(p, 2)[1:]))
+            out.append((p, with_names(p, [dict(c, retry=False) for c in cf] if p.get("skips") else cf, 0.2), [[0, 0]] + spread(nh, 6) + rfaults(p, 2)[1:]))
         out.extend(cleanup_only_programs())
         out.extend(logging_programs())
         out.extend(lateskip_programs())
@@ -304,7 +309,7 @@ def shared(chk, part="core"):
     """Run (or load) the shared stage for this tree / tier / seed.  Returns a dict:
        n_runs, tlc: [{module,cfg,distinct,generated,wall,coverage}], verdicts: {clause: [ {key, ...} ]},
        divergences, samples, design_violations"""
-    key = tree_key({"tier": chk.tier, "seed": chk.seed, "part": part, "v": 19})
+    key = tree_key({"tier": chk.tier, "seed": chk.seed, "part": part, "v": 20})
     os.makedirs(CACHE, exist_ok=True)
     # one entry per (part, tier, repository location): runs against a mutated copy must not evict /repo's entry
     prefix = "%s-%s-%s-" % (part, chk.tier, hashlib.sha256(REPO.encode()).hexdigest()[:8])
